@@ -78,8 +78,14 @@ type Kernel struct {
 	ties      int
 	maxEn     int
 	anon      int
-	pairSeen  map[string]struct{} // ordered (point a, point b) pairs of consecutive releases of different roles
+	pairSeen  map[string]struct{}
+	// PairCover: from the first release at PairStart on, remember the order in which hook points
+	// of different roles are first reached (ordered-pair coverage, C07).
 	PairCover bool
+	PairStart map[string]bool
+	pairOn    bool
+	firstAt   []string // "base@point" in order of first release inside the window
+	firstSeen map[string]bool
 
 	// Observer, when set, is told about every release (used by oracles that watch hook points).
 	Observer func(role, point string, now time.Duration)
@@ -397,6 +403,19 @@ func (k *Kernel) Run(done <-chan struct{}, deadline, settle time.Duration) Outco
 			k.th = mixInt(mix(mix(k.th, g.Role), g.Point), int64(now))
 			k.sh = mix(mix(k.sh, g.Base), g.Point)
 			k.steps++
+			if k.PairCover {
+				if !k.pairOn && k.PairStart[g.Point] {
+					k.pairOn = true
+					k.firstSeen = map[string]bool{}
+				}
+				if k.pairOn {
+					key := g.Base + "@" + g.Point
+					if !k.firstSeen[key] {
+						k.firstSeen[key] = true
+						k.firstAt = append(k.firstAt, key)
+					}
+				}
+			}
 			if k.KeepTrace != 0 {
 				k.trace = append(k.trace, Step{T: now, Role: g.Role, Point: g.Point, N: len(enabled), Idx: idx})
 				if k.KeepTrace > 0 && len(k.trace) > 2*k.KeepTrace {
@@ -452,6 +471,24 @@ func (k *Kernel) EndOfWorld() {
 	for _, g := range parked {
 		g.ch <- struct{}{}
 	}
+}
+
+// OrderedPairs returns "a<b" for every two hook points of different roles first reached in that
+// order inside the pair-coverage window.
+func (k *Kernel) OrderedPairs() []string {
+	k.mu.Lock()
+	defer k.mu.Unlock()
+	var out []string
+	role := func(s string) string { return s[:strings.Index(s, "@")] }
+	for i := 0; i < len(k.firstAt); i++ {
+		for j := i + 1; j < len(k.firstAt); j++ {
+			if role(k.firstAt[i]) != role(k.firstAt[j]) {
+				out = append(out, k.firstAt[i]+"<"+k.firstAt[j])
+			}
+		}
+	}
+
+	return out
 }
 
 // Trace returns the kept steps.
